@@ -260,12 +260,14 @@ Section Gauss.
     then Qred (poly poly_gauss (Qred (fwhm_gauss / fwhm_lorentz)) * fwhm_lorentz)
     else Qred (poly poly_lorentz (Qred (fwhm_lorentz / fwhm_gauss)) * fwhm_gauss).
 
+  Definition stark_l2t_low : Q := 1 # 100.          (* stark.pyx: if fwhm_lorentz_to_total < 0.01 *)
+  Definition stark_l2t_high : Q := 999 # 1000.      (* stark.pyx: elif fwhm_lorentz_to_total > 0.999 *)
   (* stark.pyx:278-294: (lorentz_weight, gauss_weight, sigma, fwhm_full) *)
   Definition stark_weights (fwhm_lorentz fwhm_full : Q) : Q * Q * Q * Q :=
     let sigma := Qred (fwhm_full / sigma2fwhm) in
     let l2t := Qred (fwhm_lorentz / fwhm_full) in
-    if Qltb l2t (1 # 100) then (0, 1 - 0, sigma, 0)          (* fwhm_full = 0: add_lorentzian_line returns at once *)
-    else if Qltb (999 # 1000) l2t then (1, 1 - 1, 0, fwhm_full) (* sigma = 0: add_gaussian_line returns at once *)
+    if Qltb l2t stark_l2t_low then (0, 1 - 0, sigma, 0)          (* fwhm_full = 0: add_lorentzian_line returns at once *)
+    else if Qltb stark_l2t_high l2t then (1, 1 - 1, 0, fwhm_full) (* sigma = 0: add_gaussian_line returns at once *)
     else let lw := expQ (poly poly_weight (lnQ l2t)) in (lw, 1 - lw, sigma, fwhm_full).
 
   (* the widths and weights computed before any component is added; None = "return spectrum" (stark.pyx:250-260) *)
